@@ -1,6 +1,7 @@
 package props
 
 import (
+	"errors"
 	"fmt"
 	"reflect"
 
@@ -21,10 +22,10 @@ func init() {
 	register(func() {
 		engine.Register(&engine.Check{
 			ID: "C12", Level: "exploration", Risky: true,
-			Rule:        "Go types x values: every one-field struct over 37 field types x 8 tag options, every two-field struct over 20 field types x 8 tag options per field (built at run time with reflect.StructOf), every field type plain and wrapped in slice / map / pointer / interface, pointer depth 0-3, and ~30 compiled seed types (named types, value- and pointer-receiver Folder and IsZeroer, inline folders/interfaces/pointers, registered custom folders, recursive types, unsupported kinds) x a value alphabet per field (zero, empty non-nil, non-empty, boundary numbers), folded by value and by pointer with the real Fold; oracle: the value of the emitted events == the executable model of the documented tag rules (model.RefFold), or an error where the model refuses the type; a case = (type descriptor, value, by-value/by-pointer); non-trivial = struct with at least one tagged or composite field",
+			Rule:        "Go types x values: every one-field struct over 37 field types x 8 tag options, every two-field struct over 20 field types x 8 tag options per field (built at run time with reflect.StructOf), every field type plain and wrapped in slice / map / pointer / interface, pointer depth 0-3, and ~30 compiled seed types (named types, value- and pointer-receiver Folder and IsZeroer, inline folders/interfaces/pointers, registered custom folders, recursive types, unsupported kinds) x a value alphabet per field (zero, empty non-nil, non-empty, boundary numbers), folded by value and by pointer with the real Fold; plus field-count thresholds (0-24 fields), two-level inlining at zero and non-zero offsets, 16 further tag spellings, container/string sizes 0-33, nesting up to 17; plus one long-lived Iterator: value a folded into a visitor that fails at event k (every k), then value b folded on the same Iterator (every pair over the inline/custom-folder seeds); oracle: the value of the emitted events == the executable model of the documented tag rules (model.RefFold), or an error where the model refuses the type; a case = (type descriptor, value, by-value/by-pointer); non-trivial = struct with at least one tagged or composite field",
 			Assumptions: []string{"struct types are limited to what reflect.StructOf can build plus the compiled seeds (method-bearing and named types only as seeds)", "where the statement is silent (non-nil pointer/interface whose target is empty by size under omitempty) both outcomes are accepted and counted as ambiguous_accepted", "map-derived members compared unordered"},
-			Families:    func(tier string) []engine.Family { return goFamilies(tier, c12Body) },
-			Require:     []string{"folds_compared", "refusals_checked"},
+			Families:    func(tier string) []engine.Family { return append(goFamilies(tier, c12Body), c12HistoryFamilies(tier)...) },
+			Require:     []string{"folds_compared", "refusals_checked", "folds_after_failed_fold_compared"},
 		})
 	})
 }
@@ -92,4 +93,120 @@ func c12Body(x *engine.Exec, c *GoCase) {
 		return
 	}
 	x.Outcome(got.String())
+}
+
+// c12HistoryFamilies: the mapping must not depend on what the Iterator did before - in particular not on an
+// earlier Fold that failed half-way (the target visitor returned an error at event k).
+func c12HistoryFamilies(tier string) []engine.Family {
+	type hv struct {
+		class string
+		v     interface{}
+	}
+	groups := map[bool][]hv{}
+	want := map[string]bool{"SeedHolder": true, "SeedInlineFolderV": true, "SeedInlineFolderP": true, "SeedInlineIfc": true, "SeedInlinePtr": true, "SeedNode": true,
+		"SeedNamedFields": true, "SeedTags": true, "SeedCustomHolder": true, "SeedFolderV": true, "SeedRec": true, "SeedWithUnexported": true}
+	var customOpts []gotype.FoldOption
+	for _, s := range seeds() {
+		if !want[s.name] {
+			continue
+		}
+		if s.opts != nil {
+			customOpts = s.opts
+		}
+		for _, v := range s.vals {
+			groups[s.opts != nil] = append(groups[s.opts != nil], hv{"seed:" + s.name, v})
+		}
+	}
+	// a struct that inlines a map and one that inlines a struct, built like the generated ones
+	type inlMap struct {
+		A int
+		M map[string]interface{} `struct:",inline"`
+		Z string
+	}
+	groups[false] = append(groups[false], hv{"inline-map", inlMap{A: 1, M: map[string]interface{}{"k": SeedFolderV{3}}, Z: "z"}}, hv{"inline-map", inlMap{A: 2}})
+	failure := errors.New("visitor failure injected by the harness")
+	mk := func(name string, custom bool) engine.Family {
+		vals := groups[custom]
+		if custom {
+			vals = append(vals, groups[false][:8]...)
+		}
+		var opts []gotype.FoldOption
+		if custom {
+			opts = customOpts
+		}
+		return engine.Family{Name: name, Arity: []int{len(vals)}, Body: func(x *engine.Exec) {
+			a := vals[x.Choose(len(vals))]
+			// length of a's fold
+			probe := model.NewRecorder()
+			if r := guard(400000, func() error { return gotype.Fold(a.v, probe, opts...) }); r.Bad() {
+				return // reported by the stateless families
+			}
+			k := x.Choose(len(probe.Evs) + 1)
+			b := vals[x.Choose(len(vals))]
+			fe := model.RefFold(b.v)
+			desc := fmt.Sprintf("%T %s fails at event %d, then %T %s", a.v, trunc(model.Dump(a.v), 80), k, b.v, trunc(model.Dump(b.v), 80))
+			x.Case(desc, true)
+			x.Sample(func() interface{} {
+				return map[string]interface{}{"first_value": trunc(model.Dump(a.v), 200), "first_type": fmt.Sprintf("%T", a.v), "visitor_fails_at_event": k, "second_value": trunc(model.Dump(b.v), 200), "second_type": fmt.Sprintf("%T", b.v)}
+			})
+			if fe.Refuse {
+				return
+			}
+			rec := model.NewRecorder()
+			rec.Err = failure
+			var err1, err2 error
+			mark := 0
+			x.Journal("gotype.Iterator.Fold", "after-failed-fold:"+b.class, desc)
+			res := guard(800000, func() error {
+				it, err := gotype.NewIterator(rec, opts...)
+				if err != nil {
+					return err
+				}
+				if k < len(probe.Evs) {
+					rec.FailAt = k
+				}
+				err1 = it.Fold(a.v)
+				rec.FailAt = -1
+				mark = len(rec.Evs)
+				err2 = it.Fold(b.v)
+				return nil
+			})
+			wit := func() interface{} {
+				return map[string]interface{}{"first_value": trunc(model.Dump(a.v), 200), "first_type": fmt.Sprintf("%T", a.v), "visitor_fails_at_event": k, "first_err": errStr(err1),
+					"second_value": trunc(model.Dump(b.v), 200), "second_type": fmt.Sprintf("%T", b.v), "second_err": errStr(err2), "second_events": trunc(model.EventsString(rec.Evs[mark:]), 400), "model": trunc(fe.V.String(), 400)}
+			}
+			class := "after-failed-fold:" + b.class
+			if res.Bad() || res.Err != nil {
+				x.Violation("gotype.Iterator.Fold", symptomOr(res, "error"), class, res.Panic+res.Where+errStr(res.Err), wit())
+				return
+			}
+			if k < len(probe.Evs) && err1 == nil {
+				x.Violation("gotype.Iterator.Fold", "visitor-error-swallowed", class, "the visitor failed at event "+fmt.Sprint(k)+" but Fold returned nil", wit())
+				return
+			}
+			if err2 != nil {
+				x.Violation("gotype.Iterator.Fold", "supported-refused", class, errStr(err2), wit())
+				return
+			}
+			got, err := model.ValueOf(rec.Evs[mark:])
+			if err != nil {
+				x.Violation("gotype.Iterator.Fold", "ill-formed-events", class, err.Error(), wit())
+				return
+			}
+			x.Count("folds_after_failed_fold_compared", 1)
+			if !model.Equal(fe.V, got, model.Exact) {
+				x.Violation("gotype.Iterator.Fold", "wrong-value", class, fmt.Sprintf("model %s, folded %s", trunc(fe.V.String(), 300), trunc(got.String(), 300)), wit())
+				return
+			}
+			x.Outcome(got.String())
+		}}
+	}
+	return []engine.Family{mk("iterator-after-failed-fold", false), mk("iterator-after-failed-fold-custom", true)}
+}
+
+func symptomOr(r Result, dflt string) string {
+	if s := r.Symptom(); s != "" {
+		return s
+	}
+	return dflt
 }
